@@ -240,6 +240,14 @@ def part_grid_layout_changes(chk):
         names = ['v_parallel_2d', 'mode_solve', 'v_parallel_1d', 'poloidal'] if swapper else list(L4)
         ops = [rng.choice(['set', 'set', 'set', 'save', 'restore']) for _ in range(rng.randint(3, 7))]
         targets = [rng.choice(names) for _ in ops]
+        if it % 4 == 2:
+            # by position: an over-decomposed first direction (2 points on 3 processes: some process is empty in the layouts that
+            # distribute it, not in the others) and saves taken in two different layouts
+            p0, p1, swapper, save = 3, rng.choice([1, 2]), False, True
+            ext = [2, rng.randint(3, 5), rng.randint(3, 5), rng.randint(3, 5)]
+            names = list(L4)
+            ops = ['set', 'save', 'restore', 'set', 'save', 'set', 'restore', 'set']
+            targets = ['poloidal', '', '', 'v_parallel', '', 'flux_surface', '', rng.choice(names)]
         eta = lu.eta_grids(ext)
 
         def body():
@@ -283,6 +291,8 @@ def part_grid_reductions(chk):
         while True:
             nranks = rng.choice([2, 3, 4, 5])
             plot = rng.random() < 0.6 and nranks >= 2
+            if it % 2 == 1:
+                nranks = 4 + (1 if plot else 0)         # four computing processes: a 2x2 process grid
             draw = rng.randrange(nranks) if plot else 0
             npts = [rng.choice([4, 5, 6]), 8, rng.choice([4, 6]), rng.choice([6, 7])]
             try:
@@ -298,6 +308,10 @@ def part_grid_reductions(chk):
             # that ends the block of the last process along that direction
             fix_axis = (0, 2)[it % 3]
             fix_val = npts[fix_axis] - 1
+        two = None
+        if it % 2 == 1:
+            axes = {'flux_surface': (0, 3), 'v_parallel': (0, 2), 'poloidal': (3, 2)}[lay]
+            two = (axes, tuple(rng.randrange(npts[a]) for a in axes))
 
         def body():
             comm = MPI.COMM_WORLD
@@ -308,6 +322,10 @@ def part_grid_reductions(chk):
             out['max_all'] = grid.getMax(draw)
             out['min_fix'] = grid.getMin(draw, fix_axis, fix_val)
             out['max_fix'] = grid.getMax(draw, fix_axis, fix_val)
+            if two is not None:
+                # both fixed indices in the two DISTRIBUTED directions of the layout: some processes own neither of them
+                out['min_two'] = grid.getMin(draw, list(two[0]), list(two[1]))
+                out['max_two'] = grid.getMax(draw, list(two[0])[::-1], list(two[1])[::-1])
             for new in ('poloidal', 'flux_surface', 'v_parallel'):
                 grid.setLayout(new)
             blk = grid.getBlockFromDict({fix_axis: fix_val}, comm, draw)
@@ -329,13 +347,13 @@ def part_grid_reductions(chk):
             L = grid.getLayout(grid.currentLayout)
             out['block'] = (tuple(int(x) for x in L.starts), tuple(int(x) for x in L.ends), tuple(L.dims_order), full)
             return out
-        case = {'nranks': nranks, 'plotThread': plot, 'drawRank': draw, 'npts': npts, 'layout': lay, 'fix': [fix_axis, fix_val]}
+        case = {'nranks': nranks, 'plotThread': plot, 'drawRank': draw, 'npts': npts, 'layout': lay, 'fix': [fix_axis, fix_val], 'two_fixed': two}
         ref = run_policies(chk, nranks, body, case, 'grid reductions / figure block', policies=('reverse', 'random'))
         if ref is None:
             continue
         # oracle for the values (C17 owns this clause; here only a sanity check that the root got a number and others None)
         vals = ref.values()
-        for k in ('min_all', 'max_all', 'min_fix', 'max_fix'):
+        for k in ('min_all', 'max_all', 'min_fix', 'max_fix') + (('min_two', 'max_two') if two is not None else ()):
             if vals[draw][k] is None or any(v[k] is not None for i, v in enumerate(vals) if i != draw):
                 chk.fail('C06:reduce-root', 'reduction %s did not deliver its result exactly at the drawing rank' % k, case)
         for i, v in enumerate(vals):
@@ -492,7 +510,7 @@ def part_setup_restart(chk):
     try:
         for it in range(chk.n(6, 30)):
             while True:
-                nranks = rng.choice([2, 3, 4, 5])
+                nranks = rng.choice([3, 4, 5] if it % 2 == 0 else [2, 3, 4, 5])
                 plot = rng.random() < 0.7
                 draw = rng.randrange(nranks) if plot else 0
                 npts = [rng.choice([4, 5, 6]), 8, rng.choice([4, 6]), rng.choice([6, 7])]
@@ -502,10 +520,13 @@ def part_setup_restart(chk):
                 except RuntimeError:
                     continue
             lay = rng.choice(['flux_surface', 'v_parallel', 'poloidal'])
-            named = rng.random() < 0.5
+            # by position, not by draw: every other case lets the root choose and announce the folder name, from a root that is not rank 0
+            named = it % 2 == 1
             folder = os.path.join(work, 'run%d' % it) if named else None
             t_save = rng.choice([0, 7, 120])
-            save_root = rng.randrange(nranks - (1 if plot else 0)) if rng.random() < 0.6 else 0     # the process that creates / announces the folder
+            nw_ = nranks - (1 if plot else 0)
+            # the process that creates / announces the folder
+            save_root = (1 + rng.randrange(nw_ - 1)) if (it % 2 == 0 and nw_ > 1) else (rng.randrange(nw_) if rng.random() < 0.6 else 0)
 
             def body_write():
                 # a run without plot-only rank sets up, announces/creates its folder and writes a checkpoint
@@ -524,8 +545,8 @@ def part_setup_restart(chk):
 
             # variants: the resuming run is one of several on the machine (its communicator is a Split half of the world, one more
             # process stands outside and takes part in nothing); the folder holds the parameter file but no checkpoint yet
-            outsider = rng.random() < 0.5
-            no_ckpt = rng.random() < 0.4
+            outsider = it % 3 == 1 or (it % 3 == 2 and rng.random() < 0.5)
+            no_ckpt = it % 3 == 1 or (it % 3 == 0 and rng.random() < 0.4)
 
             def body():
                 # ... and a later run (possibly with a plot-only rank) resumes from it
